@@ -443,8 +443,8 @@ def gen_cases(chk):
         c = dict(c.get("case", c))
         c["stream"] = "corpus"
         cases.append(c)
-    cases += gen_random(chk, 20000 if thorough else 1300)
-    cases += gen_ties(chk, 6000 if thorough else 500)
+    cases += gen_random(chk, 14000 if thorough else 1300)
+    cases += gen_ties(chk, 4000 if thorough else 500)
     cases += gen_zero_width_hyp(chk, 200 if thorough else 30)
     return [c for c in cases if in_space(c)]
 
@@ -603,7 +603,8 @@ def run(chk, cases=None):
     chk.extra["model_disagreements"] = len(bad)
 
     # every optimal_completion output of the run is also judged by the spec alone (model-free)
-    oc_idx = [i for i, c in enumerate(cases) if c["api"] == "oc" and (replaying or chk.tier == "thorough" or i % 2 == 0)]
+    oc_idx = [i for i, c in enumerate(cases) if c["api"] == "oc" and
+              (replaying or (chk.tier == "thorough" and streams[i] != "exhaustive") or i % 2 == 0)]
     sres = coq_eval_bools(chk.workdir, IMPORTS, [spec_term(cases[i], outs[i]) for i in oc_idx], tag="specall")
     spec_bad = [i for i, ok in zip(oc_idx, sres) if not ok]
     chk.extra["spec_judged_outputs"] = len(oc_idx)
